@@ -37,7 +37,10 @@ def sha(s):
     return hashlib.sha256(s.encode()).hexdigest()
 
 
-def generate_once(d, cse):
+_SHARED_CFG = {}
+
+
+def generate_once(d, cse, as_dict=False):
     from formak import cpp, python
 
     from fsim import models
@@ -50,7 +53,14 @@ def generate_once(d, cse):
     cpp.open = fs.open
     try:
         with contextlib.redirect_stdout(io.StringIO()):
-            cpp.compile_ekf(b["model"], b["process_noise"], b["sensor_models"], b["sensor_noises"], b["calibration_map"], config=cpp.Config(common_subexpression_elimination=cse))
+            if as_dict:
+                # one plain dict, written once by the user and reused for every generation of the session
+                if not _SHARED_CFG:
+                    _SHARED_CFG.update({"common_subexpression_elimination": cse, "max_dt_sec": 0.02, "innovation_filtering": 4.0})
+                ccfg = _SHARED_CFG
+            else:
+                ccfg = cpp.Config(common_subexpression_elimination=cse, max_dt_sec=0.02, innovation_filtering=4.0)
+            cpp.compile_ekf(b["model"], b["process_noise"], b["sensor_models"], b["sensor_noises"], b["calibration_map"], config=ccfg)
             pe = python.compile_ekf(b["model"], b["process_noise"], b["sensor_models"], b["sensor_noises"], b["calibration_map"], config=python.Config(common_subexpression_elimination=cse))
     finally:
         sys.argv = argv
@@ -99,8 +109,8 @@ def main():
         for vi, variant in enumerate(job["variants"]):
             dv = permuted(d, variant)
             try:
-                a = generate_once(dv, job["cse"])
-                b = generate_once(dv, job["cse"]) if vi == 0 else a  # state leaking between generations: checked once per model
+                a = generate_once(dv, job["cse"], job.get("config_as_dict", False))
+                b = generate_once(dv, job["cse"], job.get("config_as_dict", False)) if vi == 0 else a  # state leaking between generations: checked once per model
                 rec = {"model": mi, "variant": vi, "header": a["header"], "source": a["source"], "layout": a["layout"], "twice_equal": (a["header"], a["source"], a["layout"]) == (b["header"], b["source"], b["layout"])}
                 if a["header_text"] is not None:
                     rec["header_text"], rec["source_text"] = a["header_text"], a["source_text"]
